@@ -124,6 +124,7 @@ pub struct Ctx {
     fail_counts: BTreeMap<String, u64>,
     deadline: Instant,
     capped: bool,
+    machinery: Vec<String>,
     trace: Option<fs::File>,
     out: std::io::Stdout,
     next_sample_at: u64,
@@ -222,6 +223,13 @@ impl Ctx {
         self.capped
     }
 
+    /// A defect of the machinery itself (reference model audit failed, ...): exit 2, never a verdict.
+    pub fn machinery_error(&mut self, msg: String) {
+        if self.machinery.len() < 5 {
+            self.machinery.push(msg);
+        }
+    }
+
     pub fn mark_capped(&mut self) {
         self.capped = true;
     }
@@ -245,6 +253,7 @@ impl Ctx {
                 "samples": self.samples,
                 "fail_counts": self.fail_counts,
                 "capped": self.capped,
+                "machinery": self.machinery,
             })
         );
         let _ = lock.flush();
@@ -372,6 +381,7 @@ fn worker_main(engine: &dyn Engine, tier: Tier, shard: u64, nshards: u64) -> ! {
         fail_counts: BTreeMap::new(),
         deadline: Instant::now() + engine.budget(tier),
         capped: false,
+        machinery: Vec::new(),
         trace,
         out: std::io::stdout(),
         next_sample_at: 1 + seed() % 3,
@@ -543,6 +553,9 @@ fn parent_main(engine: &dyn Engine, tier: Tier) -> ! {
                     samples.extend(a.iter().cloned());
                 }
                 capped |= st["capped"].as_bool().unwrap_or(false);
+                if let Some(a) = st["machinery"].as_array() {
+                    machinery_errors.extend(a.iter().filter_map(|x| x.as_str()).map(|x| x.to_string()));
+                }
             }
             None => {
                 // the worker died: find the case it was running
